@@ -62,6 +62,11 @@ CLAIMED = {
          'pl_roundtrip (pl_integral ∘ pl_norm = id for every index and energy power incl. the logarithmic branch), degrees_refused_iff; oracles: all permutations, '
          'harmonic_component_addition at the nodes, fields around random centres, closed forms vs quadrature, broadband averages of constant models, the simulator guard.',
          'Lean kernel + Mathlib; translator; a**b as exp(b log a); FITPACK integrals in the broadband averages are measured (1e-9), not proved.'),
+ 'C14': ('proof', 'Lean 4 theorems about generated projections/rotations (translator) with Float correspondence and file-level oracles',
+         'rotate_inverse/rotate_forward/rotate_norm, naive_roundtrip (both directions), sky_det_roundtrip (any DU angle, any dithering offset, pointing off the poles), psf_displacement, '
+         'dithered_pointing, pointing_is_centre; oracles: real mma round trips vs an independent inverse for DU×roll×dithering×pointings, sky↔pixel, and simulated files '
+         '(X,Y→WCS→RA,DEC; DETX,DETY→dithered pointing→RA,DEC; WCS reference; PSF-like displacement).',
+         'Lean kernel + Mathlib; translator; astropy.wcs abstract (round trip measured: partial); float32 column storage (0.6 arcsec); DU clocking/focal length/dithering formula re-stated in the harness as independent reference.'),
 }
 NOT_YET = 'check not built yet in this round (work in progress; see DESIGN.md section 7 for the planned model and theorems)'
 
